@@ -684,6 +684,8 @@ pub fn keyword_pool(e: &EFmt) -> Vec<String> {
         e.task.budget_brackets.1,
         e.task.budget_separator,
         "0", "1", "0.5", ".", "-", "+", "a", "9", "1.5", "-1",
+        // whitespace other than the format's space keyword (the enum parser skips only that keyword)
+        "\t", "\n", "\u{3000}", "\u{a0}", "\u{feff}",
     ];
     v.extend(e.copulas());
     v.into_iter().filter(|s| !s.is_empty()).map(|s| s.to_string()).collect()
